@@ -22,6 +22,10 @@ TEXT = {
         level="Proof over the constructors as regenerated from hsms.go by the translator (gen/Ctrl.v): C14_layout_req, C14_layout_reject, C14_short_system_bytes, C14_echo (responses echo session id and system bytes, wrong kind refused), C14_bytes, C14_type_function, C14_type_total (all 65,536 (PType, SType) pairs: forallb ... = true by vm_compute, lifted with forallb_forall), C14_decode. Correspondence suite C14 is exhaustive over session ids, status/reason codes and (PType, SType) pairs.",
         note=BASE_NOTE + " The translation of the eight constructors, Type() and ToBytes() is by gengo's recognised statement forms; an unrecognised form makes CtrlTie.v fail.",
         technique="Coq proof over translator-generated definitions (reflexivity, finite sweep lifted by forallb_forall) + exhaustive correspondence"),
+    "C07": dict(
+        level="Proof (partial): C07_total (the decoder model's only outcomes are rejection or the denoted message), C07_alloc / C07_alloc_items (allocation units, charged where the Go code allocates, are at most 5 per input byte + 16 whatever lengths the input declares; mutual induction over the fuel using decoder soundness), C07_depth (recursion depth at most half the input length). The runtime half: every hostile input is decoded in a worker subprocess under an address-space limit and a watchdog, runtime.MemStats.TotalAlloc must stay below 2048 bytes per input byte + 64 KiB, no panic may escape, an abort is a violation unless it is the listed known finding K1 (stack overflow at 8,000,000 nesting levels).",
+        note=BASE_NOTE + " Partial: the allocator, GC and the 1 GB goroutine stack cap are the Go runtime's; the unit cost model is tied to the code by the TotalAlloc bound, not by proof.",
+        technique="Coq proof of a linear bound on a cost semantics + worker-subprocess measurement of TotalAlloc on hostile inputs"),
     "C09": dict(
         level="Proof (partial for lists): C09_subst (FillVariables of a value item = the factory on the argument list with the values in place, refusal included), C09_unknown, C09_values_survive, C09_names, C09_bytes. The composition law and the order of remaining variables for list templates are decided by the Go-side monitor of suite C09 (single fill vs every split into successive fills) and by correspondence with the model (C09_compose_partial).",
         note=BASE_NOTE,
